@@ -50,7 +50,11 @@ class C09(_BldProp):
         # C09 speaks about builds that succeed; the failures it requires are checked by the relation.
         # Whether some *other* sequence fails is not pinned here (success is pinned by C07 / C13 / C20).
         if k == "ok":
-            return ("ok", v[14:16].hex(), len(v))
+            # with an explicit length in force C09 pins the field only; how many bytes follow the
+            # fixed part is C10's subject (a build that pads to the announced length breaks C10, not C09)
+            lens = [t for t in op.split(";")[1:] if t.startswith("len")]
+            explicit = bool(lens) and lens[-1] != "len:none"
+            return ("ok", v[14:16].hex(), None if explicit else len(v))
         return "panic" if str(k).startswith(("panic", "crash")) else None
 
     def relation(self, ops, impl):
@@ -95,7 +99,8 @@ class C10(_BldProp):
     id = "C10"
     required = ["C10.output_is_reference", "C10.reserve_irrelevant", "C10.batch_irrelevant", "C10.tlv_pair_same"]
     rule = ("random programs each followed by 5 metamorphic variants (reservations removed/added, batches unrolled/rolled, TLV struct<->pair); "
-            "non-trivial = distinct programs mixing >= 3 payload kinds")
+            "non-trivial = distinct programs mixing >= 3 payload kinds."
+            " Also: reserve_capacity(0 / 1 / 16 / 65535 / 70000) before, between and after two writes that take the buffer to 65534 .. 70000 bytes under an explicit length.")
 
     def programs(self, tier, rng):
         n = 1200 if tier == "quick" else 25000
@@ -114,6 +119,12 @@ class C10(_BldProp):
         progs += BG.boundary_programs(rng)
         progs += BG.length_toggle_programs(rng)
         progs += BG.small_exhaustive(3 if tier == "quick" else 4)
+        rgroups, rsingles = BG.reserve_past_limit_groups()
+        for g in rgroups:
+            start = len(progs)
+            progs.extend(g)
+            self._groups.append((start, len(progs)))
+        progs += rsingles
         return progs
 
     def project(self, op, line):
@@ -310,10 +321,10 @@ class C13(Prop):
 
 class C20(Prop):
     id = "C20"
-    required = ["C20.write_appends_encoding", "C20.to_bytes", "C20.int_big_endian", "C20.tlv_pair_same", "C20.oversize_refused", "C20.success_condition", "C20.int_signed", "C20.width_table", "C20.partial_write_exact"]
+    required = ["C20.write_appends_encoding", "C20.to_bytes", "C20.int_big_endian", "C20.tlv_pair_same", "C20.oversize_refused", "C20.success_condition", "C20.int_signed", "C20.width_table", "C20.partial_write_exact", "C20.sequence_sizes"]
     rule = ("every integer width at min/max/random, every address kind, TLVs with lengths {0,1,255,256,65535,65536}, sections and slices, "
             "written into writers pre-filled with {0,1,16,65535,65549..65553} bytes; non-trivial = distinct (payload kind, size class, prefill class)"
-            " Results of writes that would carry the writer past 65551 bytes are not compared with the model (unpinned); a reported success must have appended the whole encoding.")
+            " Results of writes that would carry the writer past 65551 bytes are not compared with the model (unpinned); a reported success must have appended the whole encoding. Follow-ups into the same writer: one more byte (after=) and the same value a second time (again=: same size returned, same bytes appended).")
 
     PREFILLS = [0, 1, 16, 300, 65535, 65549, 65550, 65551, 65552, 65553]
 
@@ -411,6 +422,17 @@ class C20(Prop):
             grown = len(pre) + (len(enc) if enc is not None and ret.startswith("ok:") else 0)
             if kv.get("after") == "odd" or (kv.get("after") == "err" and (enc is None or ret.startswith("ok:")) and grown + 1 <= 65551):
                 problems.append("a later write into the same writer, still below its size limit, does not append its byte (after=%s)" % kv.get("after"))
+            # the same value written twice into one writer: the second call returns its own size
+            # and appends the same bytes again; below the limit it may not fail
+            ag = kv.get("again")
+            if enc is None:
+                bad = ag != "ref"
+            else:
+                # judged only where both writes stay below the writer's limit (past it, whether and
+                # how much a crossing value appends is not pinned)
+                bad = len(pre) + 2 * len(enc) <= 65551 and ag != "ok"
+            if bad:
+                problems.append("the value written a second time into the same writer: returned size / appended bytes differ from the first write (again=%s)" % ag)
             if problems:
                 out.append(Violation("relation", op[:300], il[:300], None, "; ".join(problems)))
         return out
